@@ -148,6 +148,11 @@ impl Submissions {
         log::trace!(waker:?; "adding future waiting on submission slot");
         let shared = &*self.shared;
         lock(&shared.blocked_futures).push(waker);
+        // Submission slots may have become available between the failed
+        // attempt to add the submission and registering the waker above (the
+        // kernel, or another thread polling the ring, consumed submissions).
+        // In that case nobody is going to wake us, so check again.
+        shared.wake_blocked_futures();
     }
 
     pub(crate) fn shared(&self) -> &Shared {
